@@ -52,10 +52,11 @@ structure Entry where
   got : Option (Nat × Nat) := none  -- (request id, payload) of the response put into `res`
   deriving Repr
 
-structure Item where             -- one request of a built group
+structure Item where             -- one request of a built group: RequestIds[i], entries[i] (and its forwarded host)
   id : Nat
   h : Nat
   fwd : Nat
+  req : Nat                      -- ghost: the payload of the request appended to `Requests` together with this id
   deriving Repr, DecidableEq
 
 structure Slot where             -- one pair of `batchCommandsClient.batched`
@@ -88,7 +89,9 @@ structure State where
   entries : List Entry := []
   ch : List Nat := []
   heap : List Nat := []
-  built : List Item := []        -- the builder's groups between buildWithLimit and send (empty between steps)
+  built : List Item := []        -- the builder's groups (`RequestIds`, `entries`) between buildWithLimit and send
+  breqs : List Nat := []         -- `Requests` of the builder's groups (payloads), a slice PARALLEL to `built`
+  sending : Option Nat := none   -- getClientAndSend is between buildWithLimit and the last `send` on this client
   clients : List Client := []
   index : Nat := 0
   nfwd : Nat := 0                -- forwarded hosts are 1..nfwd
@@ -248,7 +251,7 @@ def buildItems (es : List Entry) : BuildSt → List Nat → BuildSt
       else
         buildItems es { idAlloc := st.idAlloc + 1,
                         count := (if e.pri < highTaskPriority then st.count + 1 else st.count),
-                        items := { id := st.idAlloc + 1, h := h, fwd := e.fwd } :: st.items } rest
+                        items := { id := st.idAlloc + 1, h := h, fwd := e.fwd, req := e.payload } :: st.items } rest
 
 /-- `for (count < limit && Len() > 0) || hasHighPriorityTask() { Take(n, build) }` -/
 def buildLoop (es : List Entry) (limit : Nat) : Nat → List Nat → BuildSt → List Nat × BuildSt
@@ -304,6 +307,7 @@ def track (s : State) (cid fwd gen : Nat) : State :=
   let grp := s.built.filter (·.fwd = fwd)
   { s with
     built := s.built.filter (¬ ·.fwd = fwd),
+    breqs := ((s.built.zip s.breqs).filter (¬ ·.1.fwd = fwd)).map (·.2),
     table := s.table ++ grp.map (fun it => { cid := cid, id := it.id, h := it.h, fwd := fwd, gen := gen }),
     entries := s.entries.mapIdx (fun i e => match grp.find? (·.h = i) with | some it => { e with reqId := it.id } | none => e),
     clients := updClient s.clients cid fun c => { c with sent := c.sent + grp.length } }
@@ -311,6 +315,8 @@ def track (s : State) (cid fwd gen : Nat) : State :=
 /-- `batchCommandsClient.send(forwardedHost, group)` for the items of `built` with this forwarded host -/
 def sendGroup (s : State) (cid fwd : Nat) : State :=
   let grp := s.built.filter (·.fwd = fwd)
+  -- the BatchCommandsRequest of this group: the i-th request id travels with the i-th request
+  let batch := ((s.built.zip s.breqs).filter (·.1.fwd = fwd)).map fun x => (x.1.id, x.2)
   if grp.isEmpty then s else
   let s := ensureStream s cid fwd
   let st := findStream s.streams cid fwd
@@ -318,14 +324,15 @@ def sendGroup (s : State) (cid fwd : Nat) : State :=
   let sf := match st with | some x => x.sendFail | none => false
   let s := track s cid fwd gen
   if sf then failSlots s cid (fun sl => (grp.map (·.id)).contains sl.id) .sendfail
-  else { s with wireLog := (grp.map fun it => (it.id, match s.entries[it.h]? with | some e => e.payload | none => 0)).reverse ++ s.wireLog }
+  else { s with wireLog := batch.reverse ++ s.wireLog }
 
 def sendAll (s : State) (cid : Nat) : Nat → State
   | 0 => sendGroup s cid 0
   | k + 1 => sendGroup (sendAll s cid k) cid (k + 1)
 
-/-- `getClientAndSend` -/
-def flush (s : State) : State :=
+/-- first half of `getClientAndSend`: choose the connection (tryLockForSend) and `buildWithLimit` -/
+def flushBegin (s : State) : State :=
+  if s.sending.isSome then s else
   let hasHigh := highest (priOf s.entries) s.heap ≥ highTaskPriority
   let (idx, pick) := chooseClient s.clients hasHigh s.clients.length s.index
   let s := { s with index := idx }
@@ -338,9 +345,20 @@ def flush (s : State) : State :=
   | some cid =>
     let avail := match s.clients[cid]? with | some c => c.available | none => 0
     let (hp, bst) := buildLoop s.entries avail (s.heap.length + 1) s.heap { idAlloc := s.idAlloc, count := 0, items := [] }
-    let s := { s with heap := hp, idAlloc := bst.idAlloc, built := bst.items.reverse,
-                      allocLog := bst.items.map (fun it => (it.id, it.h)) ++ s.allocLog }
-    sendAll s cid s.nfwd
+    { s with heap := hp, idAlloc := bst.idAlloc, built := bst.items.reverse, breqs := bst.items.reverse.map (·.req),
+             sending := some cid,
+             allocLog := bst.items.map (fun it => (it.id, it.h)) ++ s.allocLog }
+
+/-- second half of `getClientAndSend`: `send` for the direct group and every forwarding group, unlockForSend.
+    Between the two halves (`send` may block in initBatchClient/waitConnReady for as long as the dial time-out) callers
+    can cancel or time out, responses can arrive, other connections' streams can break. -/
+def flushEnd (s : State) : State :=
+  match s.sending with
+  | none => s
+  | some cid => { sendAll s cid s.nfwd with sending := none }
+
+/-- `getClientAndSend` without anything happening in between -/
+def flush (s : State) : State := flushEnd (flushBegin s)
 
 /-! ## receive loop -/
 
@@ -409,6 +427,8 @@ inductive Op
   | setlimit (cid : Nat) (limit : Nat)
   | cfgcancel (b : Bool)
   | panicRecover            -- batchSendLoop panics, recovers and restarts itself
+  | flushBegin              -- getClientAndSend up to and including buildWithLimit
+  | flushEnd                -- the sends of getClientAndSend
   deriving Repr
 
 def fetchLoop (pri : Nat → Nat) (max : Nat) : Nat → List Nat → List Nat → List Nat × List Nat
@@ -455,6 +475,8 @@ def step (s : State) : Op → State
   -- the deferred recover of batchSendLoop only counts the panic and starts a new loop goroutine: the request builder
   -- (id allocator, queued entries) and every in-flight table stay as they are
   | .panicRecover => s
+  | .flushBegin => flushBegin s
+  | .flushEnd => flushEnd s
 
 def init (nclients limit nfwd : Nat) : State :=
   { clients := List.replicate nclients { limit := limit }, nfwd := nfwd }
